@@ -150,6 +150,12 @@ Theorem C20_oracle_sound : forall resp nf nb ls pid (f : msg -> bool),
   subseqb msg_eqb (filter f (dlv st pid)) (filter f (sent st pid)) = true.
 Proof. exact oracle_fifo_sound. Qed.
 
+(* the unit-level oracle (applied to the real handler's outputs in E3) accepts every history of
+   the model proxy *)
+Theorem C20_oracle_sound_proxy : forall evs st outs,
+  prun pst0 evs = (st, outs) -> check_C20_proxy evs outs = true.
+Proof. exact proxy_oracle_sound. Qed.
+
 (* ---- statement pins ---- *)
 Check (C20_tags_fresh_proxy : forall evs st outs,
   prun pst0 evs = (st, outs) ->
@@ -258,3 +264,4 @@ Print Assumptions C20_mirror_lifecycle.
 Print Assumptions C20_mirror_settled.
 Print Assumptions C20_closed.
 Print Assumptions C20_oracle_sound.
+Print Assumptions C20_oracle_sound_proxy.
